@@ -368,6 +368,9 @@ structure HSt where
   name : Bytes     -- `headerName`
   value : Bytes    -- `headerValue`
 
+/-- `validName` of `readHeaders`: non-empty, every byte above the blank and not DEL -/
+def validName (name : Bytes) : Bool := name.length != 0 && name.all (fun c => c > 32 && c != 127)
+
 /-- body of the `while (line = readLine(), line != "\r")` loop of `HttpMessage::readHeaders()` -/
 def headersStep (x : HSt) : M (Step HSt (Sock × Dic)) :=
   let r := x.s.readLine
@@ -387,8 +390,12 @@ def headersStep (x : HSt) : M (Step HSt (Sock × Dic)) :=
       | none => pure (.done ({ r.2 with closed := true }, x.h))          -- `_socket->close(); return;`
       | some i => do
         let name ← substring? line 0 i
-        let rest ← substring? line (i + 1) line.length
-        pure (.next ⟨r.2, storeHeader x.h name (trimmed rest), name, trimmed rest⟩)
+        -- a field name is a token: empty, or with a blank / control character ("Content-Length : 5"), it ends the block
+        -- like a line without ':' (fix 9bf376e)
+        if !validName name then pure (.done ({ r.2 with closed := true }, x.h))
+        else do
+          let rest ← substring? line (i + 1) line.length
+          pure (.next ⟨r.2, storeHeader x.h name (trimmed rest), name, trimmed rest⟩)
 
 def readHeaders (s : Sock) : M (Sock × Dic) := iterate headersStep (s.inp.length + 2) ⟨s, [], [], []⟩
 
